@@ -401,6 +401,21 @@ def gen_cut(seed, opts=None):
         plan[who]['on_close'] = ['sleep', _pick(rng, [(1, 0.05), (1, 1.0)])]
         if not (f0['kind'] == 'close' and f0.get('who') == who):
             plan['faults'].append({'kind': 'close', 'who': who, 'at': round(f0['at'] + _pick(rng, [(2, 0.005), (1, 0.02)]), 5), 'hops': 0})
+    elif rng.random() < 0.35:
+        # requests issued on an endpoint whose connection is already gone, then that endpoint's own close():
+        # whatever is pending when close() is called has to be failed by it
+        who = _pick(rng, [(1, 'client'), (1, 'server')])
+        if not (f0['kind'] == 'close' and f0.get('who') == who):
+            nid = max([ia['id'] for ia in plan['interactions']] + [-1]) + 1
+            cfgs = {'client': plan['client'], 'server': plan['server']}
+            for j in range(rng.randint(1, 3)):
+                ia = gen_interaction(rng, nid + j, {'by': [(1, who)], 'kinds': [(2, 'rr'), (2, 'stream'), (1, 'channel')],
+                                                    'cancels': 0.0, 'errors': False, 'max_count': 3, 'hdelay': 0.0}, cfgs)
+                ia['at'] = round(0.3 + rng.uniform(0, 0.05), 4)
+                ia['late'] = True
+                plan['interactions'].append(ia)
+            plan['faults'].append({'kind': 'close', 'who': who, 'at': 0.6, 'hops': rng.randint(0, 3)})
+            plan['late_requests'] = who
     return plan
 
 
